@@ -559,6 +559,10 @@ class Engine:
         if g['external']:
             if name in s.o.get('extern_init', {}):
                 s.o['extern_init'][name](s, st, p)
+            elif name in ('@stdout', '@stderr', '@stdin'):
+                f = st.mem.new(16, 'FILE' + name, 'global')     # an opaque, non-NULL stream object
+                st.mem.allocs[f.a].fill = 0
+                st.mem.allocs[p.a].cells[0] = (8, f)
         elif g['init'] is not None:
             s.init_const(st, p, g['ty'], g['init'])
         st.mem.allocs[p.a].kind = kind
@@ -1777,9 +1781,41 @@ def _assert_failed(s, st, a, ins):
     raise Violation('abort', 'library assertion failed: ' + txt)
 
 
-@builtin('@fprintf', '@printf', '@fputc', '@fputs', '@puts', '@fflush', '@vfprintf', '@vprintf', '@putchar', '@fwrite')
+@builtin('@fputs', '@puts', '@fflush', '@vfprintf', '@vprintf', '@fwrite')
 def _stdio(s, st, a, ins):
-    return 0
+    return 1
+
+
+@builtin('@fputc', '@putchar', '@putc')
+def _fputc(s, st, a, ins):
+    return a[0]          # the character written
+
+
+@builtin('@fprintf', '@printf')
+def _fprintf(s, st, a, ins):
+    # output is not produced; floating-point arguments are kept so that a harness can look at printed numbers
+    cap = st.extra.get('fp_args')
+    if cap is not None and ins is not None:
+        vals = [v for (ty, _), v in zip(ins[4], a) if ty[0] == 'f']
+        if vals:
+            st.extra['fp_args'] = cap + vals
+    return 1
+
+
+@builtin('@sym_capture_reset')
+def _capreset(s, st, a, ins):
+    st.extra['fp_args'] = []
+    return None
+
+
+@builtin('@sym_capture_count')
+def _capcount(s, st, a, ins):
+    return len(st.extra.get('fp_args') or [])
+
+
+@builtin('@sym_capture_f64')
+def _capget(s, st, a, ins):
+    return (st.extra.get('fp_args') or [])[a[0]]
 
 
 @builtin('@snprintf')
